@@ -18,6 +18,10 @@ const (
 	bundleEnvVarPrefix = "dm_fuse_bd_"
 	pgGlobalsEnvVar    = "dm_pg_opts"
 	dbEnvVarPrefix     = "dm_pg_db_"
+
+	// paramNames lists every parameter name (and the "S" flag) written by the
+	// encoders below: their characters may not be used as separators.
+	paramNames = "S c b a V sp sr sl sb dp dr dm dl dif p m l r"
 )
 
 func containsSep(val string) bool {
@@ -290,7 +294,7 @@ func setSeparators(paramsStruct interface{}) error {
 	if err != nil {
 		return err
 	}
-	invalidSeps, err := mergeAndUniqifyRunes(stringVals...)
+	invalidSeps, err := mergeAndUniqifyRunes(append(stringVals, paramNames)...)
 	if err != nil {
 		return err
 	}
